@@ -1,0 +1,12 @@
+//go:build verif
+
+package workflow
+
+// VerifC14SetParent attaches a role to its parent exactly as workflow.Load and
+// LinkChildrenToParents do (the unexported setParent: parent pointer plus the
+// three gera.Map Wrap calls). Verification harness only (build tag `verif`):
+// lets /verif hang a role tree built from YAML under a real ParentAdapter that
+// carries the environment-wide defaults/vars/user vars.
+func VerifC14SetParent(r Role, parent Updatable) {
+	r.setParent(parent)
+}
